@@ -477,6 +477,11 @@ def call_method(m: Any, recv: V, name: str, args: list[V], kwargs: dict[str, V],
                     flat = _concrete_units(z3.simplify(sv.term))
                     if flat is not None:
                         items = [sv.sort.elem.wrap(t) for t in flat]
+            jh = getattr(m.world, "join_hook", None)
+            if items is None and jh is not None and sv is not None:
+                r = jh(m, recv, sv)
+                if r is not None:
+                    return r
             if items is None or not all(isinstance(i, VStr) for i in items):
                 # symbolic length: an unconstrained string (sound over-approximation; used for messages)
                 return VStr(z3.String(fresh_name("joined")))
